@@ -36,10 +36,15 @@ func init() {
 // c06Pool returns rule texts over pattern pat; source selects the referrer
 // flavour (document-level modifiers make sense on exceptions only).
 func c06Pool(pat string, dns bool) (texts []string) {
+	return c06PoolDoms(pat, dns, []string{"", "domain=site.com", "domain=~other.org"})
+}
+
+// c06PoolDoms: the pool over pattern pat with the given `$domain` modifiers ("" = none).
+func c06PoolDoms(pat string, dns bool, doms []string) (texts []string) {
 	seen := map[string]bool{}
 	for _, exc := range []bool{false, true} {
 		for _, imp := range []bool{false, true} {
-			for _, dom := range []string{"", "domain=site.com", "domain=~other.org"} {
+			for _, dom := range doms {
 				for _, doc := range []string{"", "document", "urlblock", "genericblock", "elemhide", "urlblock,genericblock"} {
 					for _, rw := range []bool{false, true} {
 						for _, bad := range []bool{false, true} {
@@ -643,6 +648,12 @@ func genC06Engine(r *rng, n int, w *bufio.Writer) {
 
 				continue
 			}
+		}
+		if web && r.chance(1, 3) {
+			// the page lives below a public suffix, `$domain` values name the suffix, patterns without a lookup shortcut
+			c06RunScenario(r, w, r1C06SuffixScenario(r), 1+r.n(3), false)
+
+			continue
 		}
 		c06RunScenario(r, w, c06StdScenario(r, web), 1+r.n(3), false)
 	}
